@@ -11,6 +11,7 @@ def run(ctx):
     gb.run_basic(ctx, "C15")
     gb.run_groupby(ctx, "C15")
     gb.run_ext(ctx, "C15")
+    gb.run_pipes(ctx, "C15")
     try:
         import props.joins as joins
         joins.run_joins(ctx, "C15")
